@@ -677,10 +677,15 @@ class Tee:
             raise
 
     def __enter__(self):
-        return MirrorLeecher(self.__file, self.__caches)
+        self.__leecher = MirrorLeecher(self.__file, self.__caches)
+        return self.__leecher
 
     def __exit__(self, exc_type, exc_value, traceback):
         try:
+            if exc_type is None and self.__caches:
+                # The extractor stops reading at the end of the tar archive.
+                # Make sure the mirrors get the rest of the file too.
+                while self.__leecher.read(0x10000): pass
             if self.__owner: self.__file.close()
             if exc_type is None:
                 while self.__caches:
